@@ -3465,8 +3465,12 @@ func (a Dimensions) Normalize() (time.Duration, []string) {
 	for _, dim := range a {
 		switch expr := dim.Expr.(type) {
 		case *Call:
-			lit, _ := expr.Args[0].(*DurationLiteral)
-			dur = lit.Val
+			if len(expr.Args) == 0 {
+				continue
+			}
+			if lit, ok := expr.Args[0].(*DurationLiteral); ok {
+				dur = lit.Val
+			}
 		case *VarRef:
 			tags = append(tags, expr.Val)
 		}
